@@ -72,3 +72,19 @@ fn c16_welcome_reusing_active_group_id() {
     let ev = a.create_message(&gid, EventBuilder::new(Kind::Custom(9), "hello bob").build(ak.public_key())).unwrap();
     assert!(matches!(b.process_message(&ev), Ok(MessageProcessingResult::ApplicationMessage(_))), "real group traffic no longer processed");
 }
+
+/// C16-O1 / C06-O2: an invitation that is refused (rumor without id) must leave nothing behind.
+#[test]
+fn c16_refused_welcome_leaves_no_group() {
+    let (ak, a) = ident();
+    let (bk, b) = ident();
+    let cfg = NostrGroupConfigData::new("g".into(), "d".into(), None, None, None, vec![relay()], vec![ak.public_key()]);
+    let res = a.create_group(&ak.public_key(), vec![kp(&bk, &b)], cfg).unwrap();
+    let gid = res.group.mls_group_id.clone();
+    let mut rumor = res.welcome_rumors[0].clone();
+    rumor.id = None;
+    let r = b.process_welcome(&EventId::from_byte_array([3; 32]), &rumor);
+    assert!(r.is_err(), "a welcome rumor without id is expected to be refused");
+    assert!(b.get_group(&gid).unwrap().is_none(), "a refused invitation left a group record behind");
+    assert!(b.get_groups().unwrap().is_empty());
+}
